@@ -426,6 +426,12 @@ example : Inv [⟨0, 0, 1, 2⟩, ⟨1, 0, 1, 4⟩, ⟨2, 3, 1, 1⟩] ∧
     RectSet.subtract 100 [⟨0, 0, 1, 2⟩, ⟨1, 0, 1, 4⟩, ⟨2, 3, 1, 1⟩] ⟨1, 2, 2, 2⟩ = some [⟨0, 0, 2, 2⟩] :=
   ⟨(inv_iff _).2 (by decide +kernel), by decide +kernel⟩
 
+/-- Fuel matters and a small amount suffices: the overlapping add below splits into three bands and needs
+    five levels of nesting (hypotheses of `add_terminates` met: the array has the invariant). -/
+example : Inv [⟨0, 0, 2, 2⟩] ∧ RectSet.add 4 [⟨0, 0, 2, 2⟩] ⟨1, 1, 2, 2⟩ = none ∧
+    RectSet.add 5 [⟨0, 0, 2, 2⟩] ⟨1, 1, 2, 2⟩ = some [⟨0, 0, 1, 2⟩, ⟨1, 0, 1, 3⟩, ⟨2, 1, 1, 2⟩] :=
+  ⟨(inv_iff _).2 (by decide +kernel), by decide +kernel, by decide +kernel⟩
+
 /-- The invariant holds of a concrete array with touching members, and `contains` answers "no" on it. -/
 example : Inv [⟨0, 0, 1, 6⟩, ⟨1, 4, 2, 2⟩] ∧
     RectSet.contains 10 [⟨0, 0, 1, 6⟩, ⟨1, 4, 2, 2⟩] ⟨0, 3, 2, 2⟩ = some false :=
